@@ -28,9 +28,35 @@ type SpecEnv struct {
 
 // QInst: a universally quantified sub-formula in positive position of a hypothesis
 type QInst struct {
-	Forall string // the quantified text as it occurs in the fact
-	Var    string
-	Inst   string // (=> range body) with Var free
+	Forall   string // the quantified text as it occurs in the fact
+	Var      string
+	Inst     string  // (=> range body) with Var free
+	Children []QInst // positive universal quantifiers nested directly in the body
+}
+
+// instantiate returns the instance of q at term c, in which every nested recorded quantifier is strengthened
+// by its own instances at the candidate terms (depth-limited)
+func (q QInst) instantiate(c string, cands []string, depth int) string {
+	inst := strings.ReplaceAll(q.Inst, q.Var, c)
+	if depth <= 0 {
+		return inst
+	}
+	for _, ch := range q.Children {
+		chForall := strings.ReplaceAll(ch.Forall, q.Var, c)
+		if !strings.Contains(inst, chForall) {
+			continue
+		}
+		sub := QInst{Forall: chForall, Var: ch.Var, Inst: strings.ReplaceAll(ch.Inst, q.Var, c)}
+		for _, g := range ch.Children {
+			sub.Children = append(sub.Children, QInst{Forall: strings.ReplaceAll(g.Forall, q.Var, c), Var: g.Var, Inst: strings.ReplaceAll(g.Inst, q.Var, c), Children: g.Children})
+		}
+		parts := []string{chForall}
+		for _, c2 := range cands {
+			parts = append(parts, sub.instantiate(c2, cands, depth-1))
+		}
+		inst = strings.Replace(inst, chForall, sAnd(parts...), 1)
+	}
+	return inst
 }
 
 func (env *SpecEnv) flip() *SpecEnv {
@@ -256,14 +282,22 @@ func (fr *Frame) phiVal(phi *ssa.Phi, env *SpecEnv) Val {
 func (fr *Frame) sourceVar(name string, env *SpecEnv) (Val, bool) {
 	var found ssa.Value
 	n := 0
+	bestDepth, bestIdx := -1, -1
+	depth := func(b *ssa.BasicBlock) int {
+		d := 0
+		for x := b.Idom(); x != nil; x = x.Idom() {
+			d++
+		}
+		return d
+	}
 	for _, b := range fr.fn.Blocks {
-		for _, ins := range b.Instrs {
+		if env.header != nil && !(b.Dominates(env.header) && b != env.header) {
+			continue
+		}
+		for idx, ins := range b.Instrs {
 			d, ok := ins.(*ssa.DebugRef)
 			if !ok || d.IsAddr {
 				continue
-			}
-			if id, ok := d.Expr.(interface{ String() string }); ok {
-				_ = id
 			}
 			obj := d.Object()
 			if obj == nil || obj.Name() != name {
@@ -272,12 +306,24 @@ func (fr *Frame) sourceVar(name string, env *SpecEnv) (Val, bool) {
 			if _, isVar := obj.(*types.Var); !isVar {
 				continue
 			}
-			if d.X != found {
-				if _, defined := fr.env[d.X]; !defined {
-					if _, isParam := d.X.(*ssa.Parameter); !isParam {
-						continue
-					}
+			if _, defined := fr.env[d.X]; !defined {
+				switch d.X.(type) {
+				case *ssa.Parameter, *ssa.Const:
+				default:
+					continue
 				}
+			}
+			if env.header != nil {
+				// the latest binding on the dominator path to the loop header
+				dp := depth(b)
+				if dp > bestDepth || (dp == bestDepth && idx > bestIdx) {
+					bestDepth, bestIdx = dp, idx
+					found = d.X
+					n = 1
+				}
+				continue
+			}
+			if d.X != found {
 				found = d.X
 				n++
 			}
@@ -366,6 +412,14 @@ func (fr *Frame) specFieldLoc(base Val, name string) (*Loc, types.Type, bool) {
 		// unexported field from another package: look it up with the defining package
 		if n, ok := types.Unalias(st).(*types.Named); ok && n.Obj().Pkg() != nil {
 			obj, path, _ = types.LookupFieldOrMethod(st, true, n.Obj().Pkg(), name)
+		}
+	}
+	if obj == nil {
+		for _, pk := range fr.fc.eng.pkgs {
+			obj, path, _ = types.LookupFieldOrMethod(st, true, pk.Types, name)
+			if obj != nil {
+				break
+			}
 		}
 	}
 	fv, ok := obj.(*types.Var)
@@ -513,8 +567,13 @@ func (fr *Frame) specQuant(q *EQuant, env *SpecEnv) Val {
 	}
 	// the quantifier stays: nothing inside it may be skolemised or recorded
 	record := !env.goal && !env.nopol && env.qs != nil && q.All && !env.neg
-	benv.nopol = true
-	benv.qs = nil
+	var children []QInst
+	if record {
+		benv.qs = &children
+	} else {
+		benv.nopol = true
+		benv.qs = nil
+	}
 	benv.sks = nil
 	body := fr.evalBool(q.Body, benv)
 	if q.All {
@@ -526,7 +585,7 @@ func (fr *Frame) specQuant(q *EQuant, env *SpecEnv) Val {
 			str = fmt.Sprintf("(forall ((%s Int)) %s)", bv, full)
 		}
 		if record {
-			*env.qs = append(*env.qs, QInst{Forall: str, Var: bv, Inst: full})
+			*env.qs = append(*env.qs, QInst{Forall: str, Var: bv, Inst: full, Children: children})
 		}
 		return Val{S: str, Typ: tBool}
 	}
@@ -587,12 +646,23 @@ func (fr *Frame) specCall(c *ECall, env *SpecEnv) Val {
 		if env.header == nil {
 			return fr.specErr("seen() outside loop invariant")
 		}
-		for _, ins := range env.header.Instrs {
-			if nx, ok := ins.(*ssa.Next); ok {
-				it := fr.scalar(fr.val(nx.Iter))
-				fc.regVar(hIter, arr2Sort("Bool"))
-				return Val{S: sSel(fc.rd(st, hIter, it), arg(0)), Typ: tBool}
+		// the map iterator of this loop, or of the innermost enclosing loop that ranges over a map
+		var bestNx *ssa.Next
+		bestSize := 1 << 30
+		for _, li := range fr.loops {
+			if !li.blocks[env.header.Index] {
+				continue
 			}
+			for _, ins := range li.header.Instrs {
+				if nx, ok := ins.(*ssa.Next); ok && len(li.blocks) < bestSize {
+					bestNx, bestSize = nx, len(li.blocks)
+				}
+			}
+		}
+		if bestNx != nil {
+			it := fr.scalar(fr.val(bestNx.Iter))
+			fc.regVar(hIter, arr2Sort("Bool"))
+			return Val{S: sSel(fc.rd(st, hIter, it), arg(0)), Typ: tBool}
 		}
 		return fr.specErr("seen(): loop header has no map iterator")
 	case "pow2":
@@ -662,6 +732,11 @@ func (fr *Frame) specCall(c *ECall, env *SpecEnv) Val {
 		return fr.specErr("typetag")
 	case "itype", "ipay":
 		return Val{S: sApp(c.Fn, arg(0)), Typ: tInt}
+	case "ismathbig":
+		t := types.NewPointer(fc.eng.mathBigInt())
+		return Val{S: sAnd(sEq(sApp("itype", arg(0)), fmt.Sprint(fc.eng.typeTag(t))), sNot(sEq(sApp("ipay", arg(0)), "0"))), Typ: tBool}
+	case "mbval":
+		return Val{S: fr.bv(st, sApp("ipay", arg(0))), Typ: tInt}
 	case "dercodes":
 		if fc.lastMarshal == nil {
 			return fr.specErr("dercodes(): no asn1.Marshal call seen")
